@@ -30,7 +30,7 @@ class C20(Prop):
     pid = "C20"
     case_limit = 20          # a history takes milliseconds; a draw that never returns is cut off after this many seconds
     title = "DrawSet behaves as a set under any history"
-    rule = ("random operation sequences (add/remove/draw/contains/len/iter) over universes of 1-8 integer pairs (every fifth case also None, '', 'x', 0, False, (), frozenset(), a NaN object as members) (every sixtieth case (every 300th in the thorough tier): a set of 258-300 members built first), "
+    rule = ("random operation sequences (add/remove/draw/contains/len/iter) over universes of 1-8 integer pairs (every fifth case also None, '', 'x', 0, False, (), frozenset(), a NaN object as members) (every sixtieth case (every 300th in the thorough tier): a set of 258-300 members built first, drained from its last slot across size 257, partly refilled), "
             "plus every sequence of <= L add/remove operations over a 3-element universe (L=4 quick, 6 thorough); "
             "a case is non-trivial when it performs at least one removal of a present element that is not the last "
             "list slot (the swap-with-last path) or an absent removal; distinct = distinct operation sequence")
@@ -67,6 +67,12 @@ class C20(Prop):
             universe = [[a, 1000 + a] for a in range(rng.randint(258, 300))]
             ops = [["add", e] for e in universe]
             rng.shuffle(ops)
+            # ... then drained from the tail (the member inserted last, sitting in the final slot, positions 257 and below
+            # are crossed), partly refilled, and drained from the front
+            tail = [o[1] for o in ops[::-1][:rng.randint(3, len(ops) - 250)]]
+            ops += [["remove", e] for e in tail]
+            ops += [["add", e] for e in tail[:rng.randint(0, len(tail))]]
+            ops += [["remove", o[1]] for o in ops[:rng.randint(0, 4)]]
         for _ in range(n):
             r = rng.random()
             e = rng.choice(universe)
